@@ -11,7 +11,7 @@ MUT = ["move", "move", "goto", "eval", "step", "stepinto", "continue", "reset", 
 
 def gen(tier, seed):
     rnd = random.Random(seed)
-    n = 1200 if tier == "quick" else 40000
+    n = 1200 if tier == "quick" else 120000
     specs, fresh = [], []
     for i in range(n):
         p = dbggen.PROGRAMS[i % len(dbggen.PROGRAMS)]
